@@ -63,11 +63,10 @@ func (e *Engine) RunInit(st *State, pkg *ssa.Package) {
 			}
 		}
 	}
-	nm := e.NoMerge
 	e.pushFrame(st, init, nil, nil, nil, false)
 	depth := len(st.frames)
-	rs := e.runUntil(st, stopCond{depth: depth})
-	e.NoMerge = nm
+	rs := e.exploreFrame(st)
+	_ = depth
 	if len(rs) != 1 && !(len(rs) == 0 && st.done) {
 		e.fail("init of %s did not run as a single concrete path (%d states)", pkg.Pkg.Path(), len(rs))
 	}
@@ -75,5 +74,5 @@ func (e *Engine) RunInit(st *State, pkg *ssa.Package) {
 		// root-level init: the frame stack is empty again; revive the state
 		st.done = false
 		e.Stats.Paths = 0
-	}
+}
 }
